@@ -94,6 +94,7 @@ class Profile(dict):
             p_rerelease=0.0,
             p_ext_forms=rng.choice([0.0, 0.5]),   # extensions adding Forms to base entries
             p_empty_version=rng.choice([0.0, 0.0, 0.3]),
+            p_xml_space=rng.choice([0.0, 0.4]),
             p_rare_pos=rng.choice([0.0, 0.0, 0.25]),   # parts of speech t, c, p, x, u
         )
         p.update(forced)
@@ -696,6 +697,30 @@ def generate(rng: random.Random, profile: Profile | None = None) -> dict:
         ili_files.append({'name': 'ili%d' % i, 'upper': g.chance(0.3), 'columns': cols,
                           'rows': rows, 'crlf': g.chance(0.2), 'extra_column': g.chance(0.2),
                           'interior_columns': g.chance(0.25), 'mixed_eol': g.chance(0.2)})
+    # WN-LMF 1.3: xml:space on nodes with text content
+    if p.get('p_xml_space'):
+        def spacey(elem):
+            if not g.chance(p['p_xml_space']):
+                return
+            elem['space'] = rng.choice(['preserve', 'preserve', 'default'])
+            elem['text'] = rng.choice(['  %s  ', '%s\n    second line', '\n      %s\n    ',
+                                       '%s  two  spaces\tand a tab ']) % elem['text']
+        for r in resources:
+            if r['lmf_version'] != '1.3':
+                continue
+            for sp in r['lexicons']:
+                doc = lexicons[sp]
+                for ss in doc.get('synsets', []):
+                    for d in ss.get('definitions', []):
+                        spacey(d)
+                    if ss.get('ili_definition'):
+                        spacey(ss['ili_definition'])
+                    for ex in ss.get('examples', []):
+                        spacey(ex)
+                for e in doc.get('entries', []):
+                    for sn in e.get('senses', []):
+                        for ex in sn.get('examples', []):
+                            spacey(ex)
     # re-releases: other content under an unchanged id:version (installed only after the first
     # release has been removed), e.g. a wordnet under development or a silently fixed release
     alt = {}
